@@ -1,13 +1,18 @@
 """C02 - tag arguments reach Python with exactly the values they denote.
 
-Model: coq/TagParse/Model.v (parse_tag) + coq/TagParse/Resolve.v (leaf text, resolve, flags, spreads, aggregation, binding)
-Theorems: coq/Props/C02.v
-Direct oracle (independent of the model): argument lists are generated as STRUCTURES from the documented grammar; `denote`
+M-model: coq/TagParse/Model.v (parse_tag) + coq/TagParse/Resolve.v (leaf text, resolve, flags, spreads, aggregation, binding)
+S-model: coq/TagParse/Spec.v (grammar `arglist`, printer `print lay tag a`, denotation `denote`)
+Theorems: coq/Props/C02.v (parse_print_denote: run_tag (print lay tag a) = denote a for every layout, full grammar, ...)
+Direct oracle (independent of the models): argument lists are generated as STRUCTURES from the documented grammar; `Denoter`
 computes the Python values they denote (leaves evaluated by Django's own FilterExpression / Template, containers and
-spreads by Python list/dict semantics); every structure is printed in >= 8 layouts (whitespace runs, line breaks, trailing
-commas, quote style, spaces around | and :, self-closing slash) and each printing must hand exactly denote(structure) to
-Component.get_context_data and to a probe BaseNode.render.
-Correspondence: the text each tag hands to parse_tag + the leaf values -> model run_tag == observed (args, kwargs, flags).
+spreads by Python list/dict semantics); every structure is printed in >= 8 layouts by `sprint` - the Python mirror of
+Spec.print, the layout being a table position -> string (whitespace runs, line breaks, trailing commas, white space around
+| and :, inside _( ), after * / **, trailing) - plus the other quote style where equivalent and with / without the
+self-closing slash; every printing must hand exactly the denotation to Component.get_context_data and to a probe
+BaseNode.render, and all printings of one structure must agree (metamorphic).
+Correspondence, M: the text each tag hands to parse_tag + the leaf values -> run_tag == observed (args, kwargs, flags).
+Correspondence, S: the structure + the layout table + that text + the leaf values -> inside Coq: arglist_ok, print == text,
+denote == observed.
 """
 import json
 import keyword
@@ -17,12 +22,14 @@ import c12_util as U
 from common import cN, cZ, cstr, clist, cbool
 
 IMPORTS = "From DJC Require Import Lib.Base TagParse.Model TagParse.Resolve."
+IMPORTS_S = "From DJC Require Import Lib.Base TagParse.Model TagParse.Resolve TagParse.Spec TagParse.SCheck."
 
 T_DENOTE = "c02-denotation"
 T_LAYOUT = "c02-layout-dependence"
 T_INVALID = "c02-invalid-combination-accepted"
 T_SPREAD_FILTER = "c02-spread-with-filter"          # fixed 3b4a681: `...var|filter` was passed as ONE positional value instead of being spread
 T_FLAG_VALUE = "c02-flag-name-as-keyword-value"     # fixed 2de8cc8: `key=only` (value text equal to a flag name) dropped the kwarg and set the flag
+T_BACKSLASH = "c02-string-ending-in-backslash"      # fixed d29898a: "a\\\\" followed by more arguments raised TemplateSyntaxError (the \\" was taken for an escaped quote)
 
 CTX = {"i": 5, "s": "str", "l": [1, 2, 3], "d": {"a": 1, "b": 2}, "n": None, "t": True, "o": {"k": "v w", "z": [7, 8]},
        "e": [], "q": "it's \"q\"", "only": "ONLY", "required": 9}
@@ -33,6 +40,8 @@ CORPUS = [
     {"body": "x=only", "expect": [[], {"x": "ONLY"}], "trigger": T_FLAG_VALUE},
     {"body": "a=[1, *l, [2, {'k': i|add:1}],] data-id=\"x\" attrs:class='c' attrs:@click.stop=s", "trigger": T_DENOTE,
      "expect": [[], {"a": [1, 1, 2, 3, [2, {"k": 6}]], "data-id": "x", "attrs": {"class": "c", "@click.stop": "str"}}]},
+    {"body": 'x="a\\\\" y=1', "expect": [[], {"x": "a\\", "y": 1}], "trigger": T_BACKSLASH},
+    {"body": '"C:\\\\" \'b\'', "expect": [["C:\\", "b"], {}], "trigger": T_BACKSLASH},
 ]
 
 
@@ -107,7 +116,7 @@ def django_parser():
 # S side: structures, denotation, printing
 # ---------------------------------------------------------------------------------------------
 STR_CONTENTS = ["", "a", "hello world", "a=b", "[1, 2]", "{k: v}", "x|y:z", "*", "...", "%}", "a, b", " lead", "trail ", "été", "only", "/", "k:v"]
-QUOTEY = ["it's", 'say "hi"', "back\\slash"]
+QUOTEY = ["it's", 'say "hi"', "back\\slash", "C:\\", "\\\\", "q\\\""]
 DYN_CONTENTS = ["{{ i }}", "{{ l }}", "{{ i }} {{ s }}", "x{{ s|upper }}", "{% lorem 2 w %}", "{# c #}z", "{{ d }}"]
 KEYS = ["key", "k2", "data-id", "@click", "x.y", "#id", "v-on", "class", "_p", "hx-get", "@a.b-c_d", "for"]
 AGG = [("attrs", ["class", "@click.stop", "data-x", ":href", "a:b"]), ("js", ["on", "x-y"])]
@@ -290,82 +299,210 @@ class Denoter:
         return args, kwargs, flags
 
 
-class Printer:
-    """layout = every insignificant choice; canonical when rng is None"""
+# ---------------------------------------------------------------------------------------------
+# the S structure (mirror of coq/TagParse/Spec.v) and its printer
+# ---------------------------------------------------------------------------------------------
+WSCH = " \t\n\r\f"
 
-    def __init__(self, rng):
-        self.rng = rng
 
-    def ws0(self, canon=""):
-        if self.rng is None:
-            return canon
-        return self.rng.choice(["", "", " ", "  ", "\t", "\n", " \n  "])
+def s_atom(lf):
+    k = lf["k"]
+    if k in ("var", "num"):
+        return ("var", lf["t"])
+    if k == "str":
+        q = lf["q"]
+        return ("str", q, lf["c"].replace("\\", "\\\\").replace(q, "\\" + q))
+    if k == "trans":
+        return ("trans", '"', lf["c"])
+    return ("str", '"', lf["c"])        # nested template string
 
-    def ws1(self):
-        if self.rng is None:
-            return " "
-        return self.rng.choice([" ", " ", "  ", "\t", "\n", " \n\t "])
 
-    def leaf(self, lf, allow_ws=True):
-        k = lf["k"]
-        if k in ("var", "num"):
-            base = lf["t"]
-        elif k == "str":
-            q = lf["q"]
-            if self.rng is not None and not any(ch in lf["c"] for ch in "'\"\\") and self.rng.random() < 0.5:
-                q = "'" if q == '"' else '"'            # quote style where equivalent
-            base = q + lf["c"].replace("\\", "\\\\").replace(q, "\\" + q) + q
-        elif k == "trans":
-            base = "_(" + (self.ws0() if allow_ws else "") + '"' + lf["c"] + '"' + (self.ws0() if allow_ws else "") + ")"
+def s_leaf(lf):
+    return (s_atom(lf), [(f, None if a is None else s_atom(a)) for (f, a) in lf.get("f", [])])
+
+
+def s_val(v):
+    if v["k"] == "leaf":
+        return ("leaf", s_leaf(v["leaf"]))
+    if v["k"] == "list":
+        return ("list", [(True, s_val(it["v"])) if it["k"] == "spread" else (False, s_val(it)) for it in v["items"]])
+    return ("dict", [(None, s_val(en["v"])) if en["k"] == "spread" else (s_leaf(en["key"]), s_val(en["v"])) for en in v["ents"]])
+
+
+def s_items(al):
+    out = []
+    for it in al["items"]:
+        if it["k"] == "pos":
+            out.append(("pos", s_val(it["v"])))
+        elif it["k"] == "kw":
+            out.append(("kw", it["key"], s_val(it["v"])))
+        elif it["k"] == "aspread":
+            out.append(("spread", s_val(it["v"])))
         else:
-            base = '"' + lf["c"] + '"'
-        sp = (self.ws0 if allow_ws else (lambda: ""))
-        for (f, a) in lf.get("f", []):
-            base += sp() + "|" + sp() + f
-            if a is not None:
-                base += sp() + ":" + sp() + self.leaf(a, allow_ws)
-        return base
+            out.append(("flag", it["name"]))
+    return out
 
-    def value(self, v, top=False):
-        if v["k"] == "leaf":
-            # at the top level of a tag whitespace ends an attribute only when no filter follows; inside
-            # literals it is free
-            return self.leaf(v["leaf"])
-        if v["k"] == "list":
-            parts = []
-            for it in v["items"]:
-                if it["k"] == "spread":
-                    inner = it["v"]
-                    parts.append("*" + (self.ws0() if inner["k"] == "leaf" else "") + self.value(inner))
-                else:
-                    parts.append(self.value(it))
-            trail = ("," + self.ws0()) if (parts and self.rng is not None and self.rng.random() < 0.3) else ""
-            return "[" + self.ws0() + (self.ws0() + "," + self.ws0(" ")).join(parts) + self.ws0() + trail + "]"
-        parts = []
-        for en in v["ents"]:
-            if en["k"] == "spread":
-                inner = en["v"]
-                parts.append("**" + (self.ws0() if inner["k"] == "leaf" else "") + self.value(inner))
-            else:
-                parts.append(self.leaf(en["key"]) + self.ws0() + ":" + self.ws0(" ") + self.value(en["v"]))
-        trail = ("," + self.ws0()) if (parts and self.rng is not None and self.rng.random() < 0.3) else ""
-        return "{" + self.ws0() + (self.ws0() + "," + self.ws0(" ")).join(parts) + self.ws0() + trail + "}"
 
-    def arglist(self, al):
-        out = []
-        for it in al["items"]:
-            if it["k"] == "pos":
-                out.append(self.value(it["v"], top=True))
-            elif it["k"] == "kw":
-                out.append(it["key"] + "=" + self.value(it["v"], top=True))
-            elif it["k"] == "aspread":
-                out.append("..." + self.value(it["v"], top=True))
+LAY_CHOICES = ["", "", "", " ", " ", "  ", "\t", "\n", " \n  ", "\r\n", "\f ", "x", "x \n"]
+
+
+class Lay:
+    """layout = table path -> string, filled lazily from rng (canonical: everything empty); mirrors Spec.layout"""
+
+    def __init__(self, rng, table=None, path=()):
+        self.rng, self.table, self.path = rng, ({} if table is None else table), path
+
+    def sub(self, i):
+        return Lay(self.rng, self.table, self.path + (i,))
+
+    def raw(self, i):
+        p = self.path + (i,)
+        if p not in self.table:
+            self.table[p] = "" if self.rng is None else self.rng.choice(LAY_CHOICES)
+        return self.table[p]
+
+    def w0(self, i):
+        return "".join(c for c in self.raw(i) if c in WSCH)
+
+    def w1(self, i):
+        return self.w0(i) or " "
+
+    def opt(self, i):
+        return self.raw(i) != ""
+
+
+def sp_atom(lay, a):
+    if a[0] == "var":
+        return a[1]
+    if a[0] == "str":
+        return a[1] + a[2] + a[1]
+    return "_(" + lay.w0(0) + a[1] + a[2] + a[1] + lay.w0(1) + ")"
+
+
+def sp_filters(lay, fs):
+    out = ""
+    for (name, arg) in fs:
+        out += lay.w0(0) + "|" + lay.w0(1) + name
+        if arg is not None:
+            out += lay.w0(2) + ":" + lay.w0(3) + sp_atom(lay.sub(4), arg)
+        lay = lay.sub(5)
+    return out
+
+
+def sp_leaf(lay, l):
+    return sp_atom(lay.sub(0), l[0]) + sp_filters(lay.sub(1), l[1])
+
+
+def sp_val(lay, v):
+    if v[0] == "leaf":
+        return sp_leaf(lay, v[1])
+    if v[0] == "list":
+        return "[" + lay.w0(0) + sp_entries(lay.sub(1), v[1], False) + "]"
+    return "{" + lay.w0(0) + sp_entries(lay.sub(1), v[1], True) + "}"
+
+
+def sp_entries(lay, ents, is_dict):
+    out = ""
+    for n, (k, x) in enumerate(ents):
+        if is_dict:
+            if k is not None:
+                out += sp_leaf(lay.sub(6), k) + lay.w0(7) + ":" + lay.w0(8)
             else:
-                out.append(it["name"])
-        s = ""
-        for x in out:
-            s += self.ws1() + x
-        return s + (self.ws1() + "/" if al["slash"] else "") + self.ws0()
+                out += "**" + (lay.w0(0) if x[0] == "leaf" else "")
+        elif k:
+            out += "*" + (lay.w0(0) if x[0] == "leaf" else "")
+        out += sp_val(lay.sub(1), x) + lay.w0(2)
+        if n == len(ents) - 1:
+            out += ("," + lay.w0(4)) if lay.opt(3) else ""
+        else:
+            out += "," + lay.w0(4)
+        lay = lay.sub(5)
+    return out
+
+
+def sp_item(lay, it):
+    if it[0] == "pos":
+        return sp_val(lay, it[1])
+    if it[0] == "kw":
+        return it[1] + "=" + sp_val(lay, it[2])
+    if it[0] == "spread":
+        return "..." + sp_val(lay, it[1])
+    return it[1]
+
+
+def sp_items(lay, items):
+    out = ""
+    for it in items:
+        out += lay.w1(0) + sp_item(lay.sub(1), it)
+        lay = lay.sub(2)
+    return out
+
+
+def sprint_args(lay, items, slash):
+    """everything after the tag name: mirror of Spec.print without the leading tag"""
+    return sp_items(lay.sub(0), items + ([("flag", "/")] if slash else [])) + lay.w0(2)
+
+
+def swap_quotes(x):
+    """the same structure written with the other quote character wherever the body has neither a quote nor a backslash"""
+    if isinstance(x, dict):
+        y = {k: swap_quotes(v) for k, v in x.items()}
+        if y.get("k") == "str" and not any(ch in y["c"] for ch in "'\"\\"):
+            y["q"] = "'" if y["q"] == '"' else '"'
+        return y
+    if isinstance(x, list):
+        return [swap_quotes(v) for v in x]
+    if isinstance(x, tuple):
+        return tuple(swap_quotes(v) for v in x)
+    return x
+
+
+# Coq terms of the S structure
+def c_atom(a):
+    if a[0] == "var":
+        return "(AVar %s)" % cstr(a[1])
+    return "(%s %s %s)" % ("AStr" if a[0] == "str" else "ATrans", cN(ord(a[1])), cstr(a[2]))
+
+
+def c_leaf(l):
+    return "(mkleaf %s %s)" % (c_atom(l[0]), clist(["(%s, %s)" % (cstr(n), "None" if a is None else "(Some %s)" % c_atom(a)) for n, a in l[1]]))
+
+
+def c_val(v):
+    if v[0] == "leaf":
+        return "(SLeaf %s)" % c_leaf(v[1])
+    if v[0] == "list":
+        return "(SList %s)" % clist(["(%s, %s)" % (cbool(sp), c_val(x)) for sp, x in v[1]])
+    return "(SDict %s)" % clist(["(%s, %s)" % ("None" if k is None else "(Some %s)" % c_leaf(k), c_val(x)) for k, x in v[1]])
+
+
+def c_item(it):
+    if it[0] == "pos":
+        return "(IPos %s)" % c_val(it[1])
+    if it[0] == "kw":
+        return "(IKw %s %s)" % (cstr(it[1]), c_val(it[2]))
+    if it[0] == "spread":
+        return "(ISpread %s)" % c_val(it[1])
+    return "(IFlag %s)" % cstr(it[1])
+
+
+def c_table(table):
+    return clist(["(%s, %s)" % (clist(["%d%%nat" % i for i in p]), cstr(sv)) for p, sv in sorted(table.items()) if sv != ""])
+
+
+def adjust_table(table, kind):
+    """the layout of the text parse_tag receives: Django strips the tag contents (no trailing white space); the component
+    tag_fn additionally re-joins Token.split_contents() with single spaces (every white-space run outside quotes -> ' ')"""
+    out = {}
+    for p, sv in table.items():
+        if p == (2,):
+            continue
+        if kind == "component":
+            ws = "".join(c for c in sv if c in WSCH)
+            out[p] = " " if ws else ("x" if sv else "")
+        else:
+            out[p] = sv
+    return out
 
 
 INVALID = [  # documented as invalid -> TemplateSyntaxError, never re-interpreted
@@ -485,6 +622,8 @@ def sources(kind, body, slash):
 def run(tier, seed):
     import djsetup
     djsetup.setup()
+    import gen_constants
+    gen_constants.generate(["C12"])          # Props/C02.v anchors the scanner constants of the current source
     chk = C.Check("C02", tier, seed)
     chk.prove()
     thorough = tier == "thorough"
@@ -492,6 +631,27 @@ def run(tier, seed):
     pr = Probes()
     pr.install()
     terms, cases = [], []
+    sterms, scases = [], []
+
+    def spec_case(kind, body, slash, items, table, res):
+        """S-model case: structure + layout table (as parse_tag sees it) + parse text + observed values"""
+        text = res[-1] if res[0] == "ok" else res[2]
+        if text is None:
+            return
+        tag, allowed = ("component", ["only"]) if kind == "component" else ("c02probe", ["required", "only"])
+        oth = Other()
+        env = build_env(text, CTX, oth)
+        if res[0] == "ok":
+            fl = [f for f, on in (res[3] or {}).items() if on]
+            out = "RGot %s %s %s %s" % (clist([value_term(a, oth) for a in res[1]]),
+                                        clist(["(%s, %s)" % (value_term(k, oth), value_term(v, oth)) for k, v in res[2].items()]),
+                                        clist([cstr(f) for f in fl]), cbool(slash))
+        else:
+            out = "RFail %s" % RERR.get(res[1], "EOther")
+        sterms.append("(mkscase %s %s %s %s (mkarglist %s %s) %s (%s) %s)" % (
+            cstr(tag), clist([cstr(a) for a in allowed]), clist(env), c_table(adjust_table(table, kind)),
+            clist([c_item(it) for it in items]), cbool(slash), cstr(text), out, cbool(kind == "probe")))
+        scases.append({"kind": kind, "body": body, "slash": slash, "parse_text": text, "level": "S"})
 
     def model_case(kind, body, slash, res):
         text = res[-1] if res[0] == "ok" else res[2]
@@ -523,7 +683,7 @@ def run(tier, seed):
                              {"kind": kind, "body": c["body"], "observed": repr(res[:3]), "expected": exp})
                 model_case(kind, c["body"] + " /", True, res)
         # ---- 1. documented grammar x layouts ----
-        n_struct = 2500 if thorough else 260
+        n_struct = 2500 if thorough else 300
         n_lay = 10 if thorough else 8
         n_fail_lay = 0
         for si in range(n_struct):
@@ -535,11 +695,19 @@ def run(tier, seed):
             except Exception:  # noqa - a structure whose denotation is itself an error (e.g. *s of an int): skip
                 chk.dist["denotation-undefined"] += 1
                 continue
-            canon = Printer(None).arglist(al)
-            seen_res = None
+            seen_res, canon = None, None
             for li in range(n_lay):
-                body = canon if li == 0 else Printer(rng).arglist(al)
-                res = pr.run(sources(kind, body, al["slash"]), CTX)
+                # layout li: 0 = canonical; odd ones also use the other quote style where equivalent; the last two flip the slash
+                al_l = swap_quotes(al) if li % 2 == 1 else al
+                slash = (not al["slash"]) if li >= n_lay - 2 else al["slash"]
+                lay = Lay(None if li == 0 else rng)
+                items = s_items(al_l)
+                body = sprint_args(lay, items, slash)
+                if li == 0:
+                    canon = body
+                head = "component 'c02x'" if kind == "component" else "c02probe"
+                src = "{% " + head + body + " %}" + ("" if (slash or kind == "probe") else "{% endcomponent %}")
+                res = pr.run(src, CTX)
                 nontriv = any(ch in body for ch in "[{|*.") or "=" in body
                 chk.count(("arglist", kind, body), nontriv, kind="grammar-" + kind,
                           sample={"tag": kind, "body": body, "received": repr(res[1:3])} if (li == 3 and si % 40 == 0) else None)
@@ -547,7 +715,7 @@ def run(tier, seed):
                     (kind == "component" or {f for f, on in res[3].items() if on} == exp_flags)
                 if not ok:
                     chk.fail(classify(body), "tag hands %r to Python; its arguments denote %r" % (res[1:4], (exp_args, exp_kwargs, sorted(exp_flags))),
-                             {"kind": kind, "body": body, "slash": al["slash"], "structure": al, "observed": repr(res[:4]),
+                             {"kind": kind, "body": body, "slash": slash, "structure": al_l, "observed": repr(res[:4]),
                               "expected": repr((exp_args, exp_kwargs, sorted(exp_flags)))})
                 if seen_res is not None and (res[0] != seen_res[0] or (res[0] == "ok" and not (same(res[1], seen_res[1]) and same(res[2], seen_res[2])))):
                     n_fail_lay += 1
@@ -555,8 +723,9 @@ def run(tier, seed):
                              {"kind": kind, "body": body, "canonical": canon, "observed": repr(res[:3]), "canonical_observed": repr(seen_res[:3])})
                 if li == 0:
                     seen_res = res
-                if li < 3:
-                    model_case(kind, body, al["slash"], res)
+                if li < 3 or li == n_lay - 1:
+                    model_case(kind, body, slash, res)
+                spec_case(kind, body, slash, items, lay.table, res)
         # ---- 2. documented-invalid combinations ----
         for body in INVALID:
             for kind in ("component", "probe"):
@@ -577,7 +746,7 @@ def run(tier, seed):
         chk.extra["outside_statement_observed"] = explore
         for _ in range(6000 if thorough else 700):
             al = gen_arglist(rng, ["required", "only"])
-            body = U.mutate(rng, Printer(rng).arglist(al), n=rng.randint(1, 2))
+            body = U.mutate(rng, sprint_args(Lay(rng), s_items(al), al["slash"]), n=rng.randint(1, 2))
             if "%}" in body:      # a mutated quote may let `%}` end the tag early; what follows is then template text, not a tag argument
                 continue
             res = pr.run(sources("probe", body, True), CTX)
@@ -600,6 +769,14 @@ def run(tier, seed):
     bad = C.coq_eval_cases("C02", "run", IMPORTS, "rcase", "chk", terms, shard=400, timeout=1200, extra_defs=extra)
     for i in bad[:20]:
         chk.disagree("run_tag model != implementation (args / kwargs / flags / exception class)", cases[i])
+    extra_s = "Definition kws : list str := %s.\nDefinition chk (c : scase) : bool := check_s kws c.\n" % kw
+    sbad = C.coq_eval_cases("C02", "spec", IMPORTS_S, "scase", "chk", sterms, shard=300, timeout=1200, extra_defs=extra_s)
+    for i in sbad[:20]:
+        chk.disagree("S-model (arglist_ok / print == text handed to parse_tag / denote == received values) != implementation", scases[i])
+    chk.extra["spec_cases"] = len(sterms)
+    chk.extra["model_cases"] = len(terms)
+    chk.extra["spec_disagreement_examples"] = [scases[i] for i in sbad[:8]]
+    chk.extra["spec_disagreement_terms"] = [sterms[i] for i in sbad[:2]]
     chk.extra["layout_failures"] = n_fail_lay
     chk.extra["disagreement_examples"] = [cases[i] for i in bad[:12]]
     chk.extra["disagreement_terms"] = [terms[i] for i in bad[:3]]
